@@ -10,7 +10,9 @@ PROP = {
             "construct and under json / inspect); for "
             "each pair the Go maps (bindings map included) are built in 4 insertion orders; rendered 5x on one parsed "
             "template with one environment object, with the 3 other constructions, on 2 fresh parses, on 2 fresh "
-            "engines, and through Render, RenderString, FRender, ParseAndRender, ParseAndRenderString, ParseAndFRender; "
+            "engines, and through Render, RenderString, FRender, ParseAndRender, ParseAndRenderString, ParseAndFRender "
+            "(the three ParseAnd* calls cannot name a source path and are left out for the about 10 % of the cases that carry an "
+            "include layout); "
             "environment-free templates are also run through cmd/liquid built from the working tree. All results "
             "(bytes, or error kind/line/path/cause and text) must be identical. Non-trivial = renders non-empty output.",
     "trusted_base": COMMON_TB,
@@ -18,21 +20,31 @@ PROP = {
 }
 
 TEXT = {
-    "text": ('In the model a render is a function of (configuration, source, start line, bindings value, file layout): repeated '
-              'renders, fresh parses and fresh engines are the same application (reparse_same), and the six API entry points '
-              'reduce to it (entrypoints_agree). The one source of nondeterminism in the real code, Go map iteration order, is '
-              'removed by sorting: sort_perm_invariant / map_order_independent prove that sorting any two permutations of the '
-              'same distinct-key entries gives the same list, for every list; the JSON printers (json, inspect) sort the resolved '
-              'key texts themselves: jsonObject_perm / json_map_order_independent / json_keyedMap_order_independent prove that '
-              'json.Marshal of a map gives the same text for every permutation of its entries. Tie: every `determ` case line is answered by the '
+    "text": ('In the model a render is a pure function `run` of (configuration, source, start line, bindings value, file layout): '
+              'it re-parses the source on every call and has no engine, template or process state, so "repeated renders, fresh '
+              'parses and fresh engines agree" holds by construction and is not evidence about the code (reparse_same is x = x, '
+              'by rfl); entrypoints_agree (also by rfl) says that a model of ParseAndRender - compile, then Render of the tree - '
+              'unfolds to `run`; the other entry points have no model of their own, their agreement is checked by `determ` only. '
+              'Theorems with content: sort_perm_invariant / map_order_independent - sorting any two permutations of the '
+              'same distinct-key entries gives the same list, for every list of string-keyed entries (the order '
+              'values.SortedMapKeys uses); they are about the function sortedEntries, which `run` does not call: the model receives '
+              'maps already in key order (the codec keeps them so) and iterates them as given, so no theorem says that `run` is '
+              'invariant under a permutation of a map\'s entries. The JSON printers (json, inspect) do sort inside the model: '
+              'jsonObject_perm / json_map_order_independent / json_keyedMap_order_independent prove that '
+              'whenever json.Marshal of a map succeeds and the key texts are distinct, every permutation of its entries marshals to '
+              'the same text (nothing is stated for a marshal that fails or is unmodelled). Tie: every `determ` case line is answered by the '
               'model and compared with the real engine; on the real code each case is rendered 5x on one template, with maps '
-              'rebuilt in 4 insertion orders, on fresh parses and engines, through all six entry points and through cmd/liquid, '
+              'rebuilt in 4 insertion orders, on fresh parses and engines, through the six entry points (the three ParseAnd* ones '
+              'only for cases without includes) and through cmd/liquid, '
               'and all results must be identical.'),
     "design_ref": 'DESIGN.md 6 C02',
     "note": NOTE + ("What the model cannot exhibit is Go's randomised map iteration itself: that every place where the code iterates a "
-              'map sorts first is established by the metamorphic runs (including the int-key and float-key families), not by a '
-              "theorem. The clock (date: 'now') is outside the property and never generated."),
-    "technique": ('Lean 4 proof (functional determinism of the model; permutation-invariance of the sorted map order) + '
+              'map sorts first is established by the metamorphic runs (string-keyed maps and the int-key families; the only '
+              'float-keyed map generated has one entry), not by a '
+              'theorem; nor is there a theorem about parsed templates, engines or entry points as objects with state - the '
+              "metamorphic runs carry that. The clock (date: 'now') is outside the property and never generated."),
+    "technique": ('Lean 4 proof (permutation-invariance of the sorted map order and of the JSON object text; determinism across '
+              'renders, parses and engines is the purity of the model, true by construction) + '
               'model/implementation correspondence + metamorphic runs of the implementation over permuted map constructions and '
               'entry points'),
 }
